@@ -48,12 +48,14 @@ Proof. exact open_establishes_session. Qed.
 Print Assumptions C20_open_establishes_session.
 
 (* A name that is not itself an object is a folder exactly when objects exist under it
-   (Stat / newFileInfo; prefix-free names: prefix_free_at). *)
+   (Stat / newFileInfo).  For EVERY bucket layout: no prefix-freeness is needed at this name since
+   the folder probe lists with the prefix path+"/" (gcs_fileinfo_prefix_sep, regenerated from
+   gcsfs/file_info.go; before the fix the probe used the bare path and "d.txt" made "d" a folder). *)
 Theorem C20_folder_iff_objects_below : forall bkt (objs : gstore) name path,
-  split_name name = (bkt, path) -> path <> [] -> prefix_free_at objs path ->
+  split_name name = (bkt, path) -> path <> [] ->
   alist_get path objs = None ->
   ((exists i, new_file_info bkt objs name = inr i /\ gi_dir i = true) <->
-   (exists k, In k (map fst objs) /\ prefixb (path ++ s_slash) k = true)) /\
+   (exists k, In k (map fst objs) /\ prefixb (ensure_trailing path) k = true)) /\
   ((exists i, new_file_info bkt objs name = inr i) -> exists i, new_file_info bkt objs name = inr i /\ gi_dir i = true).
 Proof. exact folder_iff_objects_below. Qed.
 Print Assumptions C20_folder_iff_objects_below.
@@ -141,10 +143,9 @@ Example C20_folder_hyps_satisfiable :
   norm_name name_d = name_d /\ split_name name_d = (B, n_d) /\
   split_name (ensure_trailing name_d) = (B, n_d ++ [SLASH]) /\
   new_file_info B S1 name_d = inr (mkGI (name_d ++ [SLASH]) true 42) /\
-  prefix_free_at S1 n_d /\ alist_get n_d S1 = None /\ layout_ok S1 (n_d ++ [SLASH]).
+  ensure_trailing n_d = n_d ++ [SLASH] /\ alist_get n_d S1 = None /\ layout_ok S1 (n_d ++ [SLASH]).
 Proof.
   repeat split; try (vm_compute; reflexivity).
-  - intros k Hk Hp. cbn in Hk. repeat destruct Hk as [<-|Hk]; try contradiction; vm_compute in Hp |- *; auto; discriminate.
   - cbn. repeat constructor; cbn; intuition discriminate.
   - intros k Hk Hp Hne. cbn in Hk. repeat destruct Hk as [<-|Hk]; try contradiction; vm_compute in Hp |- *;
       try discriminate; try (exfalso; apply Hne; reflexivity).
@@ -152,6 +153,11 @@ Proof.
     repeat destruct H1 as [<-|H1]; try contradiction; repeat destruct H2 as [<-|H2]; try contradiction;
       vm_compute in P1, P2, Q1, Q2 |- *; try discriminate.
 Qed.
+
+(* a look-alike sibling does not make a name a folder: only "d.txt" exists, Stat("b/d") = ENOENT *)
+Example C20_look_alike_sibling_is_no_folder :
+  new_file_info B [([100;46;116;120;116]%N, [1]%N)] name_d = inl GENOENT.
+Proof. exact look_alike_sibling_is_no_folder. Qed.
 
 (* patched: the listing of d has the child named d and the folder e, once each *)
 Example C20_listing_instance :
